@@ -1,6 +1,7 @@
 package main
 
 import (
+	"regexp"
 	"fmt"
 	"go/constant"
 	"go/token"
@@ -79,6 +80,99 @@ func c36CanonRegex(pat, prefix string) (bool, string) {
 		if cc.Rune[j] != want[j] {
 			return false, "character class " + cc.String() + " is not [0-9a-f]"
 		}
+	}
+	return true, ""
+}
+
+// c36CanonRegexAny: ^P[0-9a-f]{40}$ where the language of P is a non-empty
+// subset of {"hx","cx"} (so `^(hx|cx)[0-9a-f]{40}$` and `^[ch]x[0-9a-f]{40}$`
+// pass, `^hx|cx[0-9a-f]{40}$` does not).
+func c36CanonRegexAny(pat string) (bool, string) {
+	if ok, _ := c36CanonRegex(pat, "hx"); ok {
+		return true, ""
+	}
+	if ok, _ := c36CanonRegex(pat, "cx"); ok {
+		return true, ""
+	}
+	re, err := syntax.Parse(pat, syntax.Perl)
+	if err != nil {
+		return false, "does not parse: " + err.Error()
+	}
+	if re.Op != syntax.OpConcat || len(re.Sub) < 4 || re.Sub[0].Op != syntax.OpBeginText || re.Sub[len(re.Sub)-1].Op != syntax.OpEndText {
+		return false, "not a concatenation anchored at both ends"
+	}
+	body := re.Sub[len(re.Sub)-2]
+	if body.Op != syntax.OpRepeat || body.Min != 40 || body.Max != 40 || body.Sub[0].Op != syntax.OpCharClass || body.Sub[0].String() != "[0-9a-f]" {
+		return false, "body is not [0-9a-f]{40}"
+	}
+	var maxLen func(r *syntax.Regexp) int
+	maxLen = func(r *syntax.Regexp) int {
+		switch r.Op {
+		case syntax.OpLiteral:
+			if r.Flags&syntax.FoldCase != 0 {
+				return 1 << 20
+			}
+			return len(r.Rune)
+		case syntax.OpCharClass, syntax.OpAnyChar, syntax.OpAnyCharNotNL:
+			return 1
+		case syntax.OpCapture:
+			return maxLen(r.Sub[0])
+		case syntax.OpConcat:
+			n := 0
+			for _, s := range r.Sub {
+				n += maxLen(s)
+			}
+			return n
+		case syntax.OpAlternate:
+			n := 0
+			for _, s := range r.Sub {
+				if m := maxLen(s); m > n {
+					n = m
+				}
+			}
+			return n
+		case syntax.OpEmptyMatch:
+			return 0
+		case syntax.OpQuest:
+			return maxLen(r.Sub[0])
+		}
+		return 1 << 20
+	}
+	prefix := ""
+	total := 0
+	for _, s := range re.Sub[1 : len(re.Sub)-2] {
+		prefix += s.String()
+		total += maxLen(s)
+	}
+	if total > 2 {
+		return false, "the prefix part " + prefix + " can match more than two characters"
+	}
+	pre, err := regexp.Compile("^(?:" + prefix + ")$")
+	if err != nil {
+		return false, "prefix part does not compile"
+	}
+	alpha := []string{"h", "c", "x", "0", "H", "C", "X", "a", "f", "1"}
+	matched := 0
+	var walk func(cur string, d int) bool
+	walk = func(cur string, d int) bool {
+		if pre.MatchString(cur) {
+			if cur != "hx" && cur != "cx" {
+				return false
+			}
+			matched++
+		}
+		if d == 2 {
+			return true
+		}
+		for _, a := range alpha {
+			if !walk(cur+a, d+1) {
+				return false
+			}
+		}
+		return true
+	}
+	if !walk("", 0) || matched == 0 {
+		return false, "the prefix part " + prefix + " accepts something other than hx / cx"
 	}
 	return true, ""
 }
@@ -312,6 +406,88 @@ func runC36(c *Ctx) {
 					c.check(strings.Contains(r, "global:"+spec.global+".MatchString($0.Field().String())"), "C36.validator-regex", spec.fn+" decides by the pattern on the whole field", e.pos(), r, spec.fn+" returns "+r)
 				}
 			}
+		}
+		// every tag of the t_addr family is bound to a strict validator
+		if nv := c.mustFn("server/jsonrpc", "", "NewValidator"); nv != nil {
+			strictFns := map[string]bool{"isEoaAddress": true, "isScoreAddress": true}
+			strictTags := map[string]bool{}
+			nTags := 0
+			regs := c.calls(nv, byMethod("RegisterValidation"))
+			for _, cs := range regs {
+				_, a := callArgs(cs.Common())
+				tagC, ok := a[0].(*ssa.Const)
+				if !ok || tagC.Value == nil || tagC.Value.Kind() != constant.String {
+					continue
+				}
+				tag := constant.StringVal(tagC.Value)
+				if !strings.HasPrefix(tag, "t_addr") {
+					continue
+				}
+				nTags++
+				fnv := a[1]
+				for {
+					if ct, ok := fnv.(*ssa.ChangeType); ok {
+						fnv = ct.X
+						continue
+					}
+					break
+				}
+				f, _ := fnv.(*ssa.Function)
+				okF := f != nil && strictFns[f.Name()]
+				if f != nil && !okF {
+					// another function: it must decide by a constant pattern that is canonical for one prefix
+					for _, e := range exitAlts(f) {
+						r := render(e.Results[0])
+						for g, pat := range pats {
+							if strings.Contains(r, "global:"+g+".MatchString($0.Field().String())") {
+								okF, _ = c36CanonRegexAny(pat)
+							}
+						}
+					}
+				}
+				if okF {
+					strictTags[tag] = true
+				}
+				name := "?"
+				if f != nil {
+					name = f.Name()
+				}
+				c.check(okF, "C36.validator-regex", "tag "+tag+" is validated by a strict address pattern", cs.Pos(), name, "tag "+tag+" is bound to "+name+", which does not decide by an anchored hx/cx + 40 × [0-9a-f] pattern: non-canonical strings pass validation and are then parsed leniently into another address")
+			}
+			for _, cs := range c.calls(nv, byMethod("RegisterAlias")) {
+				_, a := callArgs(cs.Common())
+				tagC, ok1 := a[0].(*ssa.Const)
+				valC, ok2 := a[1].(*ssa.Const)
+				if !ok1 || !ok2 || tagC.Value == nil || valC.Value == nil {
+					continue
+				}
+				tag := constant.StringVal(tagC.Value)
+				if !strings.HasPrefix(tag, "t_addr") {
+					continue
+				}
+				nTags++
+				okA := true
+				for _, part := range strings.Split(constant.StringVal(valC.Value), "|") {
+					if !strictTags[part] {
+						okA = false
+					}
+				}
+				c.check(okA, "C36.validator-regex", "alias "+tag+" is a union of strict address tags", cs.Pos(), constant.StringVal(valC.Value), "alias "+tag+" = "+constant.StringVal(valC.Value)+" includes a tag that is not a strict address validator")
+			}
+			if nTags < 3 {
+				c.undecided("C36.validator-regex", "t_addr tag family", nv.Pos(), fmt.Sprintf("expected 3 (t_addr_eoa, t_addr_score, t_addr), found %d", nTags))
+			}
+		}
+		// every other address-like constant pattern of the package is canonical too
+		for g, pat := range pats {
+			if g == "eoaAddressRegex" || g == "scoreAddressRegex" {
+				continue
+			}
+			if !(strings.Contains(pat, "hx") || strings.Contains(pat, "cx")) {
+				continue
+			}
+			ok1, why := c36CanonRegexAny(pat)
+			c.check(ok1, "C36.validator-regex", "address-like pattern "+g+" is canonical", token.NoPos, pat, "pattern "+pat+" mentions an address prefix but is not an anchored prefix + 40 × [0-9a-f]: "+why)
 		}
 		// stores to the regex globals only in init
 		for _, fn := range c.pkgFuncs("server/jsonrpc") {
